@@ -41,11 +41,11 @@ PROPS = {
         "thorough_runs": {"C07": 400000},
         "thorough_wall": 900,
         "rule": "each run = one adversarial inbound history without an acceptable Logon (1-16 steps from {ResendRequest over generated ranges, "
-                "TestRequest, Heartbeat with and without a TestReqID, Logout, refused Logon (also with a sequence gap), damaged Logon, application, unknown type, idle up to 10x the largest interval}) x role x "
+                "TestRequest, Heartbeat with and without a TestReqID, Logout, refused Logon (also with a sequence gap), damaged Logon, application, unknown type, idle up to 10x the largest interval, a local Stop() or Logout() of the never-logged-on session (close timeout 1 s or 1 h)}) x role x "
                 "store mode (empty / earlier session / parallel authenticated session on the same shared memory.Storage) x buffer size x seeded schedule; "
                 "oracle on every message captured from the unauthenticated connection; distinct = distinct context-switch-sequence hash; non-trivial = "
                 "a preemption or fault happened",
-        "mandatory_probes": ["store_prepopulated", "long_idle"],
+        "mandatory_probes": ["store_prepopulated", "long_idle", "local_ending_before_logon"],
         "assumptions": ASSUME,
     },
     "C14": {
@@ -82,11 +82,11 @@ PROPS = {
         "thorough_runs": {"C10": 400000},
         "thorough_wall": 900,
         "rule": "each run = (3/4) a logged-on session (role x buffer x interval) that first produces 0-30 outbound messages of mixed origin "
-                "(application sends, TestRequest echoes, Rejects, timer heartbeats), then receives 1-5 ResendRequests with ranges from {inside, single, "
+                "(application sends, TestRequest echoes, Rejects, timer heartbeats), in a quarter of the runs then stays silent until the library's own TestRequest is outstanding, then receives 1-5 ResendRequests with ranges from {inside, single, "
                 "open-ended 16=0, to-last, end beyond last, wholly beyond, inverted, begin 0, all}; the peer-side wire log of first transmissions is the "
                 "reference model; in a third of the accepting runs a neighbour session with look-alike identifiers (LIB+PEER / LIBP+EER) shares the store and sends in between; or (1/4) a Logon whose 34 is drawn around the expected number on a fresh or pre-counted store; distinct = distinct "
                 "context-switch-sequence hash; non-trivial = a preemption happened; model_states_visited lists range shapes reached",
-        "mandatory_probes": ["resend_in_range", "logon_gap"],
+        "mandatory_probes": ["resend_in_range", "logon_gap", "resend_while_probe_outstanding"],
         "assumptions": ASSUME,
     },
     "C15": {
@@ -153,10 +153,10 @@ PROPS = {
         "thorough_runs": {"C08": 200000},
         "thorough_wall": 900,
         "rule": "each run = role x buffer x N in {1,2,3,5,7,10,20,40,60} s x logon at a drawn sub-second phase, then 3-22 actions placed relative to the running deadline "
-                "d = last outbound + N: send at d-N/10-1ms / d-1ms / d / d+1ms, bursts, idle stretches of 3-50 periods, random sends, peer silence long enough for the library's own TestRequest to be outstanding (ending before the disconnect); inbound keep-alives at drawn times; "
+                "d = last outbound + N: send at d-N/10-1ms / d-1ms / d / d+1ms, bursts, idle stretches of 3-50 periods, random sends, peer silence long enough for the library's own TestRequest to be outstanding (ending before the disconnect), application sends that fail inside the period (the store fails to save that message, or an application outgoing handler refuses it) and transmit nothing; inbound keep-alives at drawn times; "
                 "zero transport latency, no injected delays; oracle over the simulated arrival times of every outbound message (upper gap bound N+N/10, no unsolicited "
                 "Heartbeat within N of an earlier outbound message); distinct = distinct context-switch-sequence hash; non-trivial = a preemption happened",
-        "mandatory_probes": ["send_1ms_before_deadline", "send_at_deadline", "send_1ms_after_deadline", "send_before_last_tick", "burst", "idle_30_periods", "timer_heartbeat", "peer_silent_testrequest_outstanding"],
+        "mandatory_probes": ["send_1ms_before_deadline", "send_at_deadline", "send_1ms_after_deadline", "send_before_last_tick", "burst", "idle_30_periods", "timer_heartbeat", "peer_silent_testrequest_outstanding", "failed-save", "refused-send"],
         "assumptions": ASSUME,
     },
     "C09": {
